@@ -247,6 +247,18 @@ Record proc : Type := mkproc { p_is_new : bool }.
 Definition creator : proc := mkproc true.
 Definition load_uhash_by (p : proc) (s : st) (recs : list (list Z)) : res st := load_uhash s recs.
 
+(* BBSHOME/.PASSWDS as a directory entry: the table itself, or a symbolic link to another entry (a BBSHOME file linked into a data volume).
+   The loader opens the PATH and reads what the path resolves to; everything it learns about the table - how many records, which ids -
+   is a property of the resolved file, never of the entry (a link's own "size" is the length of its target string). *)
+Inductive pfile : Type := PRegular (recs : list (list Z)) | PLink (target : pfile).
+Fixpoint presolve (e : pfile) : list (list Z) := match e with PRegular r => r | PLink t => presolve t end.
+Fixpoint plink (n : nat) (r : list (list Z)) : pfile := match n with O => PRegular r | S k => PLink (plink k r) end.
+(* the harness's op 33: 0 regular file, 1 link with an absolute target, 2 link with a relative target, 3 link to a link *)
+Definition passwd_entry (mode : Z) (r : list (list Z)) : pfile :=
+  plink (if mode =? 0 then 0%nat else if mode =? 3 then 2%nat else 1%nat) r.
+(* LoadUHash by process p when BBSHOME/.PASSWDS is the entry e *)
+Definition load_passwd_by (p : proc) (s : st) (e : pfile) : res st := load_uhash_by p s (presolve e).
+
 (* Shm.Reset(): everything zero *)
 Definition reset_st : st := mkst (tconst 0) (tconst 0) (tconst EMPTY_ID) 0 0.
 (* Number = 0; Loaded = 0 while the rest of the segment keeps its content: the next LoadUHash is a cold load *)
@@ -384,6 +396,9 @@ Definition apply_local (p : proc) (x : hst) (g : list Z) : option (hst * list Z)
                      | Some f => Some (mkh s f (hbattery x) (hbuckets x) (hslots x), [0; 0])
                      | None => None
                      end
+  | [33; mode] => if (0 <=? mode) && (mode <? 4)
+                  then Some (mkh s (presolve (passwd_entry mode (hfile x))) (hbattery x) (hbuckets x) (hslots x), [0; 0])
+                  else None
   | 30 :: b => Some (mkh s (hfile x) (ids_of b) (hbuckets x) (hslots x), [0; 0])
   | 31 :: b => Some (mkh s (hfile x) (hbattery x) b (hslots x), [0; 0])
   | [32] => Some (mkh s (hfile x) (hbattery x) (hbuckets x) None, [0; 0])
@@ -404,6 +419,15 @@ Definition apply_op (x : hst) (g : list Z) : option (hst * list Z) :=
   | 29 :: mode :: g' =>
       if ((mode =? 0) || (mode =? 1)) && proc2_op g'
       then match new_shm_existing (mode =? 1) (mkseg SHMVER SHMSZ (hs x)) with
+           | (p2, Attached v) => apply_local p2 (with_st x v) g'
+           | _ => None
+           end
+      else None
+  (* [34; k; op...]: the long-lived attached process k (it attached once, without the create flag, and stays): the same memory, and no
+     process of the model owns any index state of its own - what an operation does is a function of the segment *)
+  | 34 :: k :: g' =>
+      if (0 <=? k) && (k <? 3) && proc2_op g'
+      then match new_shm_existing false (mkseg SHMVER SHMSZ (hs x)) with
            | (p2, Attached v) => apply_local p2 (with_st x v) g'
            | _ => None
            end
